@@ -325,14 +325,24 @@ def const(node, env=None):
         return +v
     if isinstance(node, ast.BinOp) and type(node.op) in _BIN:
         return _BIN[type(node.op)](const(node.left, env), const(node.right, env))
+    if isinstance(node, ast.Call) and isinstance(node.func, ast.Name) and not node.keywords and env and \
+            node.func.id in env.get('__funcs__', ()):
+        return env['__funcs__'][node.func.id](*[const(a, env) for a in node.args])     # pure helper folded by fold_func
     if isinstance(node, ast.Call) and isinstance(node.func, ast.Name) and not node.keywords:
         fn = node.func.id
         args = [const(a, env) for a in node.args]
         table = {'range': range, 'bytearray': bytearray, 'bytes': bytes, 'len': len, 'int': int, 'tuple': tuple,
-                 'list': list, 'min': min, 'max': max, 'sum': sum, 'frozenset': frozenset, 'set': set, 'sorted': sorted,
+                 'list': list, 'min': min, 'max': max, 'sum': sum, 'frozenset': frozenset, 'set': set, 'sorted': sorted, 'slice': slice, 'divmod': divmod,
                  'bool': bool, 'pow': pow, 'abs': abs, 'type': type}
         if fn in table:
             return table[fn](*args)
+    if isinstance(node, ast.Call) and norm(node.func) in ('unpack_from', 'struct.unpack_from') and not node.keywords and len(node.args) in (2, 3):
+        import struct as _struct
+        args = [const(a, env) for a in node.args]
+        try:
+            return _struct.unpack_from(args[0], bytes(args[1]), *(args[2:]))
+        except _struct.error as e:
+            raise NotConst('struct.error %s' % e)
     if isinstance(node, ast.Call) and norm(node.func) in ('pack', 'struct.pack', 'unpack', 'struct.unpack') and not node.keywords:
         import struct as _struct
         args = [const(a, env) for a in node.args]
@@ -365,6 +375,85 @@ def const(node, env=None):
             return v[lo:hi:st]
         return v[const(node.slice, env)]
     raise NotConst(norm(node))
+
+
+def fold_block(stmts, env):
+    """Fold a straight-line statement list (assignments to names, if/else over foldable tests, raise) for concrete values of
+    the names in env (modified in place).  Returns ('raise', text of the raised expression) or ('fall', None)."""
+    for st in stmts:
+        if isinstance(st, ast.Expr) and (isinstance(st.value, ast.Constant) or (isinstance(st.value, ast.Call) and norm(st.value.func).startswith(('log.', 'self.log.')))):
+            continue
+        if isinstance(st, ast.Pass):
+            continue
+        if isinstance(st, ast.Assign) and len(st.targets) == 1:
+            v = const(st.value, env)
+            t = st.targets[0]
+            if isinstance(t, ast.Name):
+                env[t.id] = v
+            elif isinstance(t, ast.Tuple) and all(isinstance(e, ast.Name) for e in t.elts):
+                for e, vv in zip(t.elts, v):
+                    env[e.id] = vv
+            else:
+                raise NotConst(norm(t))
+        elif isinstance(st, ast.If):
+            r = fold_block(st.body if const(st.test, env) else st.orelse, env)
+            if r[0] != 'fall':
+                return r
+        elif isinstance(st, ast.Raise):
+            return ('raise', norm(st.exc) if st.exc is not None else '')
+        else:
+            raise NotConst(norm(st)[:40])
+    return ('fall', None)
+
+
+def fold_func(prog, f, args, depth=0):
+    """Fold a straight-line pure helper (assignments to names, if/else over foldable tests, return) for concrete arguments; calls
+    to module level functions of the same module are folded recursively (depth <= 4).  Raises NotConst for anything else.  The
+    checker's own interpreter for finite-domain comparison with a specification -- repository code is never imported or run."""
+    if depth > 4:
+        raise NotConst('fold depth')
+    if len(args) != len(f.params):
+        raise NotConst('arity')
+    env = dict(zip(f.params, args))
+    funcs = {}
+    for q, g in prog.functions.items():
+        if g.module is f.module and g.cls is None and g.parent is None:
+            funcs[g.name] = (lambda g_: (lambda *a: fold_func(prog, g_, list(a), depth + 1)))(g)
+    env['__funcs__'] = funcs
+
+    class _Ret(Exception):
+        def __init__(self, v):
+            self.v = v
+
+    def run(body):
+        for st in body:
+            if isinstance(st, ast.Expr) and (isinstance(st.value, ast.Constant) or (isinstance(st.value, ast.Call) and norm(st.value.func).startswith(('log.', 'self.log.')))):
+                continue
+            if isinstance(st, ast.Pass):
+                continue
+            if isinstance(st, ast.Assign) and len(st.targets) == 1:
+                v = const(st.value, env)
+                t = st.targets[0]
+                if isinstance(t, ast.Name):
+                    env[t.id] = v
+                elif isinstance(t, ast.Tuple) and all(isinstance(e, ast.Name) for e in t.elts):
+                    for e, vv in zip(t.elts, v):
+                        env[e.id] = vv
+                else:
+                    raise NotConst(norm(t))
+            elif isinstance(st, ast.AugAssign) and isinstance(st.target, ast.Name) and type(st.op) in _BIN:
+                env[st.target.id] = _BIN[type(st.op)](env[st.target.id], const(st.value, env))
+            elif isinstance(st, ast.If):
+                run(st.body if const(st.test, env) else st.orelse)
+            elif isinstance(st, ast.Return):
+                raise _Ret(const(st.value, env) if st.value is not None else None)
+            else:
+                raise NotConst(norm(st)[:40])
+    try:
+        run(f.node.body)
+    except _Ret as r:
+        return r.v
+    return None
 
 
 def try_const(node, env=None, default=None):
